@@ -39,6 +39,7 @@ typedef doublecomplex scalar_t; typedef double real_t;
 #endif
 
 #include "drv.hh"
+#include <cmath>
 #if defined(PREC_s)
 #define PP_TRSV sp_strsv
 #elif defined(PREC_d)
@@ -200,6 +201,15 @@ struct Impl : Drv {
         superlu_memusage_t mu; memset(&mu, 0, sizeof mu);
         int_t info = -999;
         real_t rpg = 0, rcond = 0;
+        if (o.fact != FACTORED) {
+            // equed, R, C are pure outputs unless fact = FACTORED: in half of the configurations hand them over holding
+            // arbitrary legal-looking values (a caller may reuse one set of variables for unrelated systems)
+            int k = (o.nprocs * 7 + o.panel_size * 3 + o.relax + o.trans * 5 + o.fact) % 8;
+            if (k < 4) {
+                equed = (equed_t)k;
+                for (int i = 0; i < n; ++i) { R[i] = (real_t)std::ldexp(1.0, 2 * (i % 5) - 4); C[i] = (real_t)std::ldexp(1.0, 3 - 2 * (i % 4)); }
+            }
+        }
         PP(gssvx)(o.nprocs, &opts, &A, perm_c.data(), perm_r.data(), &equed, R.data(), C.data(), &L, &U, &B, &X,
                   &rpg, &rcond, ferr.data(), berr.data(), &mu, &info);
         out.info = (long)info; out.equed = (int)equed;
